@@ -816,6 +816,17 @@ def plant_all(decls):
                     vv["qual"] = ""
                     m[i]["vars"].append(vv)
                     yield "P0018", "%s:%s" % (k, pos), m, [v["name"]]
+                    cfgs = [j2 for j2, x in enumerate(decls) if x["k"] == "config" and
+                            any(g["name"] == v["name"] and g["qual"] == "CONSTANT" for g in x["globals"])]
+                    if len(cfgs) > 1:
+                        # the same name is a plain global in one configuration and a constant one in the other: the external
+                        # still refers to a constant global, whichever configuration comes first
+                        for which, j2 in (("first", cfgs[0]), ("last", cfgs[-1])):
+                            m2 = copy.deepcopy(m)
+                            for g in m2[j2]["globals"]:
+                                if g["name"] == v["name"]:
+                                    g["qual"] = ""
+                            yield "P0018", "%s:%s:plain-twin-in-%s-config" % (k, pos, which), m2, [v["name"]]
             # statements
             for lst, idx, path in walk_stmts(d["body"]):
                 s = lst[idx]
